@@ -46,7 +46,11 @@ pub open spec fn a_parents(q: &Query) -> bool {
         &&& (q.selection_parent_idx@[id] matches SelectionParent::InlineFragment(p) ==> p.0 < id.0)
     }
 }
-pub open spec fn arena_ok(q: &Query, s: &Schema) -> bool { a_children(q) && a_roots(q, s) && a_nodes(q, s) && a_parents(q) }
+// every operation is rooted at an object type of the schema (what the type-condition check reads for a selection directly under an operation)
+pub open spec fn a_ops(q: &Query, s: &Schema) -> bool {
+    forall|o: int| 0 <= o < q.operations@.len() ==> ((#[trigger] q.operations@[o]).object_id.0 as int) < s.stored_objects@.len()
+}
+pub open spec fn arena_ok(q: &Query, s: &Schema) -> bool { a_children(q) && a_roots(q, s) && a_nodes(q, s) && a_parents(q) && a_ops(q, s) }
 // ids are u32: everything is stated for arenas that fit (an arena that does not fit cannot be built in memory either)
 pub open spec fn cwf(q: &Query, s: &Schema) -> bool { q.selections@.len() <= 0xffff_ffff ==> arena_ok(q, s) }
 // the invariant together with the position of the parent under which the next nodes will be hung
